@@ -200,6 +200,10 @@ func propC10(p *Prog, r *Report) {
 	c10ChunkSaved(p, r, "C10.c")
 	r.Rule("C10.h", "the resume accounting assumes Read/Write pairs: the source handed to io.Copy in content.Store is, on every path, a value whose concrete type has no WriteTo (the destination none with ReadFrom)")
 	c10CopySourceIsPlainReader(p, r, "C10.h")
+	r.Rule("C10.i", "a retry goes to a strictly larger directory: the guard of store.Set that skips a directory is true when its free space equals that of the attempt that just failed")
+	c10SkipAtEquality(p, r, "C10.i")
+	r.Rule("C10.j", "root selection works on current measurements: the free space reported by repository/dir.Get comes from disk.Usage calls made in the same invocation, not from a field that replays an earlier measurement")
+	c10FreshMeasurements(p, r, "C10.j", "free")
 }
 
 func c10Retry(p *Prog, r *Report) {
